@@ -1,7 +1,7 @@
 package sem
 
 //verif:harness C18 quick n=0..6
-//verif:harness C18 thorough n=7..9
+//verif:harness C18 thorough n=7..7
 func H_C18_totalSem(n int) {
 	vMergeOutcomes()
 	in := vBytes("in", n)
@@ -30,7 +30,7 @@ func H_C18_totalSem(n int) {
 // arbitrary (also non-ASCII, invalid) field strings through the comparator and Valid
 //
 //verif:harness C18 quick la=0..3 lb=0..3
-//verif:harness C18 thorough la=4..5 lb=0..5
+//verif:harness C18 thorough la=4..4 lb=0..4
 func H_C18_totalCompare(la int, lb int) {
 	vMergeOutcomes()
 	a, b := vStr("a", la), vStr("b", lb)
